@@ -8,7 +8,7 @@ compare them across Doist / DoDoer and do / ado without comparing text.
 import ast
 
 from .absint import Domain, Interp, NORMAL, RETURN, BREAK, CONTINUE, RAISE, is_raise
-from .astutil import is_self_call, method_call, unparse, enclosing, parent, assigned_names
+from .astutil import is_self_call, method_call, unparse, enclosing, parent, assigned_names, ancestors, keytext
 from .deps import DepDomain, fs
 from .index import dotted, walk_local
 from .loader import AnalysisError
@@ -424,6 +424,8 @@ class RecurDeps(DepDomain):
         self.sends = []       # (tags, arg deps, node)
         self.due_tests = []   # canonical comparison
         self.tock_tests = []
+        self.asap_tests = []  # `retyme is None` marker tests
+        self.resolved = []    # stores that resolve the marker to the current tyme
 
     def unpack_source(self, value, i, n, state):
         if isinstance(value, ast.Call):
@@ -431,6 +433,15 @@ class RecurDeps(DepDomain):
             if mc and mc[0] == self.deq and mc[1] in ("pop", "popleft"):
                 return fs("deed[%d]" % i)
         return None
+
+    def on_store(self, target, value, state, stmt):
+        # `if retyme is None: retyme = tyme`: the rerun-asap marker denotes "the tyme of the recur that runs the deed"; resolving it
+        # leaves the abstract due tyme unchanged (it now *is* that instant) and is recorded
+        if isinstance(target, ast.Name) and ("asap", True) in state[1] and self.env_get(state, target.id) == fs("deed[1]") \
+                and isinstance(value, ast.AST) and self.deps(value, state) and self.deps(value, state) <= frozenset(self.tyme_syms):
+            self.resolved.append(stmt)
+            return self.add_tag(state, ("asap-resolved", True))
+        return super().on_store(target, value, state, stmt)
 
     def call_source(self, call, state):
         mc = method_call(call)
@@ -457,7 +468,35 @@ class RecurDeps(DepDomain):
                 return ("StopIteration",)
         return ()
 
+    def _is_asap_test(self, test, state):
+        """`<retyme> is None` / `is not None` on the popped due tyme: returns the polarity (True for `is None`) or None"""
+        if isinstance(test, ast.Compare) and len(test.ops) == 1 and isinstance(test.ops[0], (ast.Is, ast.IsNot)) \
+                and isinstance(test.comparators[0], ast.Constant) and test.comparators[0].value is None \
+                and self.deps(test.left, state) == fs("deed[1]"):
+            return isinstance(test.ops[0], ast.Is)
+        return None
+
     def tag(self, test, truth, state):
+        pol = self._is_asap_test(test, state)
+        if pol is not None:
+            self.asap_tests.append(test)
+            return ("asap", truth == pol)
+        if isinstance(test, ast.BoolOp) and isinstance(test.op, ast.Or) and truth:
+            # `retyme is None or retyme <= tyme`: run now when marked rerun-asap or due; which of the two is decided by the
+            # marker test that follows (path-sensitive)
+            kinds = []
+            for v in test.values:
+                if self._is_asap_test(v, state) is True:
+                    self.asap_tests.append(v)
+                    kinds.append("asap")
+                elif isinstance(v, ast.Compare):
+                    t = self.tag(v, True, state)
+                    kinds.append("due" if t == ("due", True) else "?")
+                else:
+                    kinds.append("?")
+            if sorted(kinds) == ["asap", "due"]:
+                return ("due", True)
+            return None
         if isinstance(test, ast.Compare) and len(test.ops) == 1:
             l, r = self.deps(test.left, state), self.deps(test.comparators[0], state)
             op = type(test.ops[0]).__name__
@@ -487,6 +526,7 @@ def recur_facts(run, cls):
     f = ix.method(cls, "recur")
     params = f.params()[0]
     tyme_syms = {"tyme"} if "tyme" in params else {"self.tyme"}
+    params_tyme = "tyme" in params      # the scheduler is itself scheduled (DoDoer): its period is its parent's
     facts = {}
     loops = [x for x in deque_loops(f) if x[3] == "left"]
     if len(loops) != 1:
@@ -522,6 +562,9 @@ def recur_facts(run, cls):
     facts["recur.send-only-when-due"] = (all(("due", True) in tags for tags, d, n in dom.sends) and bool(dom.sends),
                                          run.site(f, dom.sends[0][2]) if dom.sends else site)
     facts["recur.tock-test"] = (tuple(sorted({k for k, n in dom.tock_tests})), site)
+    # every send on a path that took the rerun-asap marker has resolved it first (otherwise `None += tock`)
+    asap_sends = [tg for tg, d_, n_ in dom.sends if ("asap", True) in tg]
+    facts["recur.asap-marker-resolved-before-run"] = (all(("asap-resolved", True) in tg for tg in asap_sends), site)
     # R4 retyme per branch
     by = {}
     for tags, elts, node in dom.appends:
@@ -535,7 +578,16 @@ def recur_facts(run, cls):
         else:
             key = "other:" + ",".join("%s=%s" % kv for kv in sorted(t.items()))
         if len(elts) == 3:
-            by.setdefault(key, set()).add((sym(elts[0]), sym(elts[1]), sym(elts[2])))
+            due = sym(elts[1])
+            arg = node.args[0].elts[1]
+            if key == "tock-falsy":
+                # the instant "tyme of the next recur": Doist knows its period (tyme advances by self.tock per cycle, C03.R1), a DoDoer
+                # does not know its parent's, so the only sound encoding there is a marker resolved by the recur that runs the deed
+                if not params_tyme and due == ("TYME", "self.tock"):
+                    due = ("NEXT",)
+                elif params_tyme and due == () and dom.resolved and all(("asap-resolved", True) in tg for tg, d_, n_ in dom.sends if ("asap", True) in tg):
+                    due = ("NEXT",)
+            by.setdefault(key, set()).add((sym(elts[0]), due, sym(elts[2])))
         else:
             by.setdefault(key, set()).add(("arity", len(elts)))
         facts.setdefault("recur.append-site:" + key, (None, run.site(f, node)))
@@ -555,9 +607,10 @@ EXPECT_RECUR = {
     "recur.send-value": (("TYME",),),
     "recur.send-only-when-due": True,
     "recur.tock-test": ("truthy",),
+    "recur.asap-marker-resolved-before-run": True,
     "recur.reappend:not-due": ((("deed[0]",), ("deed[1]",), ("deed[2]",)),),
     "recur.reappend:tock-truthy": ((("deed[0]",), ("deed[1]", "yielded"), ("deed[2]",)),),
-    "recur.reappend:tock-falsy": ((("deed[0]",), ("TYME", "self.tock"), ("deed[2]",)),),
+    "recur.reappend:tock-falsy": ((("deed[0]",), ("NEXT",), ("deed[2]",)),),
     "recur.reappend:unclassified": (),
 }
 
@@ -1161,7 +1214,10 @@ def remove_facts(run, cls):
             for c in ast.walk(n):
                 mc = method_call(c) if isinstance(c, ast.Call) else None
                 if mc and mc[0] == "self.doers" and mc[1] == "remove" and c.args and dotted(c.args[0]) == dotted(n.target):
-                    rm.add("remove-each")
+                    # the registry update must not depend on whether a live deed was found: a completed doer (no deed left) that
+                    # stays in .doers is skipped by a later extend() and never runs again
+                    conds = [keytext(f, a.test) for a in ancestors(n) if isinstance(a, (ast.If, ast.While))]
+                    rm.add("remove-each" + "".join("[if %s]" % t for t in conds))
     facts["remove.updates-doers"] = (tuple(sorted(rm)), run.site(f))
     return facts
 
